@@ -48,20 +48,21 @@ type BufDump struct {
 
 // Result is what a child reports.
 type Result struct {
-	OK         bool              `json:"ok"`
-	Error      string            `json:"error,omitempty"`
-	Deadlock   bool              `json:"deadlock,omitempty"`
-	Phase      string            `json:"phase,omitempty"`
-	Buffers    []BufDump         `json:"buffers"`
-	Wavefronts map[string]WfSum  `json:"wavefronts"`
-	Insts      int               `json:"insts"`
-	Opcodes    map[string]int    `json:"opcodes"`
-	Launches   int               `json:"launches"`
-	CUs        int               `json:"cus"`
-	Traces     map[string][]*Ev  `json:"traces,omitempty"`
-	Features   []string          `json:"features,omitempty"`
-	ABIFlags   []string          `json:"abi_flags,omitempty"`
-	KernelInfo []map[string]any  `json:"kernel_info,omitempty"`
+	OK         bool             `json:"ok"`
+	Error      string           `json:"error,omitempty"`
+	Deadlock   bool             `json:"deadlock,omitempty"`
+	Phase      string           `json:"phase,omitempty"`
+	Buffers    []BufDump        `json:"buffers"`
+	Wavefronts map[string]WfSum `json:"wavefronts"`
+	Insts      int              `json:"insts"`
+	Opcodes    map[string]int   `json:"opcodes"`
+	Launches   int              `json:"launches"`
+	CUs        int              `json:"cus"`
+	Traces     map[string][]*Ev `json:"traces,omitempty"`
+	Features   []string         `json:"features,omitempty"`
+	ABIFlags   []string         `json:"abi_flags,omitempty"`
+	Flags      []string         `json:"flags,omitempty"`
+	KernelInfo []map[string]any `json:"kernel_info,omitempty"`
 }
 
 // Args is the kernel argument block of generated kernels (64 bytes).
@@ -96,7 +97,7 @@ func childMain() {
 			c.AcceptHook(col)
 			ncu++
 		case *cu.ComputeUnit:
-			tracing.CollectTrace(c, col)
+			tracing.CollectTrace(c, &cuTracer{c: col, cu: c})
 			ncu++
 		}
 	}
@@ -143,6 +144,7 @@ loop:
 	res.Opcodes = col.opcodes
 	res.Launches = len(col.launches)
 	res.ABIFlags = col.abiFlags()
+	res.Flags = col.flags
 	if cs.Full {
 		res.Traces = col.fullTraces()
 	}
